@@ -1,6 +1,9 @@
 package mocker
 
-import "errors"
+import (
+	"errors"
+	"unsafe"
+)
 
 // C08: variable mocks take effect for every type and restore the pre-mock value.
 
@@ -26,10 +29,11 @@ var vC08Ops = [5]string{"op0", "op1", "op2", "op3", "op4"}
 // vVarHistory drives one variable through K operations chosen from Set(v1), Set(v2),
 // Apply(func() T { return v3 }), Cancel (on the mocker), Reset (on the builder), with
 // lookups through the builder each time.
-//   ptr    pointer to the variable
-//   vals   v0 (pre-mock), v1, v2, v3 as interface{} values of the variable's type
-//   apply  callback returning v3
-//   eq     compares the variable's current content with vals[i]
+//
+//	ptr    pointer to the variable
+//	vals   v0 (pre-mock), v1, v2, v3 as interface{} values of the variable's type
+//	apply  callback returning v3
+//	eq     compares the variable's current content with vals[i]
 func vVarHistory(K int, ptr interface{}, vals [4]interface{}, apply interface{}, eq func(i int) bool, id string) {
 	vEnv()
 	b := Create()
@@ -174,4 +178,87 @@ func VC_C08_never_set() {
 	verifAssert(!panicked, "C08.never-set.no-panic")
 	verifAssert(vgInt == v0 && vgErr == nil, "C08.never-set.untouched")
 	verifReached("C08.never-set")
+}
+
+func VC_C08_slice() {
+	s0, s1, s2, s3 := []int{0}, []int{1, 1}, []int{2, 2, 2}, []int{3}
+	if verifBool("startNil") {
+		s0 = nil
+	}
+	vgSlice = s0
+	vals := [4]interface{}{s0, s1, s2, s3}
+	vVarHistory(3, &vgSlice, vals, func() []int { return s3 }, func(i int) bool {
+		want := vals[i].([]int)
+		if (vgSlice == nil) != (want == nil) || len(vgSlice) != len(want) {
+			return false
+		}
+		return len(want) == 0 || &vgSlice[0] == &want[0]
+	}, "C08.slice")
+}
+
+var vgFunc func(int) int
+
+func vC08F0(i int) int { return i }
+func vC08F1(i int) int { return i + 1 }
+func vC08F2(i int) int { return i + 2 }
+func vC08F3(i int) int { return i + 3 }
+
+func VC_C08_func() {
+	fs := [4]func(int) int{vC08F0, vC08F1, vC08F2, vC08F3}
+	if verifBool("startNil") {
+		fs[0] = nil
+	}
+	vgFunc = fs[0]
+	vals := [4]interface{}{fs[0], fs[1], fs[2], fs[3]}
+	x := verifInt("x")
+	vVarHistory(3, &vgFunc, vals, func() func(int) int { return vC08F3 }, func(i int) bool {
+		if fs[i] == nil || vgFunc == nil {
+			return (fs[i] == nil) == (vgFunc == nil)
+		}
+		return vgFunc(x) == x+i
+	}, "C08.func")
+}
+
+var vgUnexp int
+
+// the symbol lookup itself is the subject of C10: the named variable's address, an error
+// for every other name
+//
+//verif:stub github.com/tencent/goom/internal/unexports2.FindVarByName
+func vStubFindVarByName(name string) (uintptr, error) {
+	if name == "github.com/tencent/goom.vgUnexp" {
+		return uintptr(unsafe.Pointer(&vgUnexp)), nil
+	}
+	return 0, errors.New("var not found")
+}
+
+// VC_C08_unexported_by_name: a variable addressed by "package.name". (No native
+// cross-validation: natively the real symbol lookup runs, which is C10's subject.)
+//
+//verif:opt xcheck=off
+func VC_C08_unexported_by_name() {
+	vEnv()
+	v0, v1, v2 := verifInt("v0"), verifInt("v1"), verifInt("v2")
+	vgUnexp = v0
+	b := Create()
+	const path = "github.com/tencent/goom.vgUnexp"
+	for step := 0; step < 3; step++ {
+		switch verifChoice(vC08Ops[step], 4) {
+		case 0:
+			b.UnExportedVar(path).Set(v1)
+			verifAssert(vgUnexp == v1, "C08.byname.set-takes-effect")
+		case 1:
+			b.UnExportedVar(path).Set(v2)
+			verifAssert(vgUnexp == v2, "C08.byname.set-takes-effect")
+		case 2:
+			b.UnExportedVar(path).Cancel()
+			verifAssert(vgUnexp == v0, "C08.byname.cancel-restores-pre-mock-value")
+		case 3:
+			b.Reset()
+			verifAssert(vgUnexp == v0, "C08.byname.cancel-restores-pre-mock-value")
+		}
+	}
+	b.Reset()
+	verifAssert(vgUnexp == v0, "C08.byname.final-reset-restores")
+	verifReached("C08.byname")
 }
